@@ -214,6 +214,7 @@ def l3_file(chk, ctx, c, tmp, ext, seen):
         if ext:
             # the reader can still be exercised on a gzip file that holds the text a working writer produces
             plain = tmp.path('.fs')
+            path = tmp.path('.fs' + ext)      # a fresh name: the failed call may have leaked an open handle on the old one
             try:
                 fs.to_file(plain, precision=p, comment_lines=list(c['comments']))
                 with open(plain, newline='') as f: text = f.read()
